@@ -8,7 +8,8 @@ AREA = M.AREA
 LEAN_PROPS = "Litep2pVerif.Props.C05"
 THEOREMS = ["no_dup_outcome", "dial_ledger", "quiescent_dialable", "addr_total", "dial_address_parses_for_tcp",
             "dial_address_peers_agree", "transport_dial_total_on_accepted_shapes", "protocol_dial_ledger", "protocol_dial_joins",
-            "protocol_notified_despite_full_channel", "facade_reports_every_outcome"]
+            "protocol_notified_despite_full_channel", "facade_reports_every_outcome",
+            "poll_next_reports_every_ready_result", "executor_collects_every_due_event", "queued_dial_failure_is_due"]
 MANIFEST = {
     "text": "Lean 4 theorems about an executable operational model of the connection manager with a ghost ledger of accepted "
             "dial attempts: no_dup_outcome, dial_ledger (outcome + inflight = 1 for every attempt in every reachable state), "
@@ -41,11 +42,20 @@ MANIFEST = {
             "address dial_address / dial hand to the transport passes the synchronous part of TcpTransport::dial/open (the "
             "address parser, nothing else) — ports 0/65535, unspecified/broadcast/loopback/multicast hosts included — so the `?` "
             "after Transport::dial that would leave the peer Dialing forever is never taken; a synchronous refusal added to the "
-            "real transport is a disagreement with the model and an `error-changes-state`/`wedged` verdict of the oracle.",
+            "real transport is a disagreement with the model and an `error-changes-state`/`wedged` verdict of the oracle. "
+            "Round tcp3: the TCP transport's own event stream (Model/Tcp/Poll.lean = impl Stream for TcpTransport as 'drain "
+            "until an event or nothing ready'): poll_next_reports_every_ready_result (Pending => no ready result is left in the "
+            "listener, pending_raw_connections or pending_connections: the waker contract), executor_collects_every_due_event (an "
+            "executor that re-polls after every item and stops at Pending collects exactly the events the queued results stand "
+            "for), queued_dial_failure_is_due; tied by the c01 area's `pn` op: a real TcpTransport with scripted ready results "
+            "in its private queues (failed inbound negotiations, failed/successful dials, open results with live/aborted/missing "
+            "cancel handles, in every order; real inbound sockets in the accept queue) polled through Stream::poll_next with a "
+            "counting waker; oracle: every queued outcome reported exactly once without an outside wake-up.",
     "note": "Trusted: Lean kernel; axioms propext/Quot.sound/Classical.choice; the model and its sampled tie; the environment "
             "contract `allowed` (events only for outstanding obligations, accept succeeds, dial/open/negotiate return Ok — "
-            "proved for dial via dial_address_parses_for_tcp, read off tcp/mod.rs for open/negotiate); TcpTransport's own "
-            "cancel/poll_next bookkeeping is outside the model; an accepted connection reports itself to the protocols only "
+            "proved for dial via dial_address_parses_for_tcp, read off tcp/mod.rs for open/negotiate); TcpTransport's poll_next "
+            "bookkeeping is modelled separately (Model/Tcp/Poll.lean: ready results only — FuturesUnordered / tokio wake a "
+            "future's task when it becomes ready) and not composed with the manager model; an accepted connection reports itself to the protocols only "
             "when every protocol channel has room (the blocking broadcast of ProtocolSet::report_connection_established is "
             "C09's subject), the command channel (256) never fills up.",
     "technique": "Lean 4 proof (ghost-ledger invariant by induction over all contract-abiding histories) + model/implementation correspondence check",
@@ -61,7 +71,9 @@ RULE = ("closed-loop seeded histories (limit configs none/0/1/2/(3,2)/mixed; 2-3
         "application calls are tried while it is blocked; open failures carry one error per address, a subset, or NO error "
         "(overall dial deadline); 30 % of the histories run at the facade level (`facade`, fdial/fdialaddr = Litep2p::dial/"
         "dial_address, observation = Litep2p::next_event polled to quiescence, `fnext` polls again); run on the real TransportManager and on the Lean model; non-trivial = at least "
-        "one dial attempt started and concluded; distinct = distinct (ops, observations) transcripts by SHA-256")
+        "one dial attempt started and concluded; distinct = distinct (ops, observations) transcripts by SHA-256; plus (c01 area) 31 `pn` "
+        "operations per quick run: 13 fixed queue shapes with event-less results ahead of a dial/open outcome and 18 random "
+        "multisets of up to 8 ready results with 0-3 waiting inbound sockets")
 TRUSTED_BASE = ["Lean 4.33 kernel", "axioms: propext, Quot.sound, Classical.choice only",
                 "hand-written model Model/Manager/{PeerState,Limits,Dial}.lean tied to manager/{peer_state,limits,mod}.rs by this correspondence run",
                 "the environment contract `allowed` of Model/Manager/Dial.lean (what a Transport may report)",
@@ -73,7 +85,9 @@ TRUSTED_BASE = ["Lean 4.33 kernel", "axioms: propext, Quot.sound, Classical.choi
                 "pending inside an arm is kept and resumed, recognised by a second poll that does not reach the transport), "
                 "harness, verif.py, checks/c05.py, checks/mgr_common.py",
                 "tokio mpsc semantics (bounded channel, a blocked send() is served before later try_send()s)",
-                "TcpTransport internals (cancel/poll_next bookkeeping), tokio::select! fairness"]
+                "TcpTransport::poll_next model Model/Tcp/Poll.lean tied by the `pn` op of the c01 area (adapter /repo/src/verif/c01_tcp.rs, "
+                "checks/tcp_poll.py); futures::FuturesUnordered hands out ready futures in push order and registers the task's waker "
+                "for the others; tokio::select! fairness"]
 ASSUMPTIONS = ["default feature set: TCP is the only SupportedTransport",
                "the transport keeps the Transport-trait contract: one terminal event per dial/open/negotiate unless cancelled, "
                "reported peer = the /p2p it parsed, accept succeeds for a connection it has just reported",
@@ -409,6 +423,29 @@ def protocol_ledger(pr, g, t, obs, prev, busy_before, nled, i, v):
 
 def matches_known(k, v):
     return False
+
+
+# ---------------------------------------------------------------- the real TCP transport's event stream (engine: extra_cases)
+# The manager's ledger theorems assume one terminal event per obligation from the transport. For the TCP transport that
+# rests on `TcpTransport::poll_next` (a dial's outcome is a ready result queued next to results that yield no event): the
+# c01 area's `pn` op fills the real transport's queues and polls it with a counting waker (checks/tcp_poll.py,
+# Model/Tcp/Poll.lean); judged here: every queued outcome is reported exactly once without an outside wake-up.
+from . import tcp_poll as _tcp_poll  # noqa: E402
+
+
+def extra_cases(rng, tier):
+    yield "C01", _tcp_poll.gen_cases(rng, tier)
+
+
+def oracle_extra(xpid, case, out):
+    if xpid != "C01":
+        return []
+    return [dict(v, msg="(real TcpTransport, c01 area) " + v["msg"]) for v in _tcp_poll.oracle(case, out)]
+
+
+def stats_extra(xpid, case, out, acc):
+    if xpid == "C01":
+        _tcp_poll.stats(case, out, acc)
 
 
 # ---------------------------------------------------------------- real nodes through the public API (engine: extra_cases)
